@@ -29,6 +29,8 @@ CONFIGS = {
     "SV3.u16.NTR.ledr": (3, "sv", 3, 65535, "NTR", "ledr"),
     "FCV6.u8.POD": (6, "fcv", 6, 255, "TC", "none"),
     "SV3.s32.POD.led": (6, "sv", 3, 2**31 - 1, "TC", "led"),
+    "SV2.u32.OA16.led": (6, "sv", 2, 2**32 - 1, "TC", "led"),
+    "FCV3.u8.OA16": (7, "fcv", 3, 255, "TC", "none"),
 }
 
 
